@@ -1008,6 +1008,27 @@ def cc2(F, R):
                       "operand's len bytes and length l + len(h)", {"len_ok": okl, "copy_ok": okc, "array_ok": oka, "len": show(ln, b)})
 
 
+def cc4(F, R):
+    """concat() is total on byte strings: it contains no subtraction on lengths that can fail.  (`l + len(h)` cannot overflow for
+    vectors that fit in memory; `end - 1`, `total - l` can, for empty or short operands — a panic in a debug build where the byte
+    strings simply concatenate.)"""
+    b = F.fn("Hex", "concat")
+    if b is None:
+        R.missing("CC4", "Hex::concat")
+        return
+    R.analysed(b)
+    n = 0
+    for bi in sorted(b.reachable):
+        t = b.blocks[bi]["term"]
+        if t and t["k"] == "assert" and not t.get("exp"):
+            n += 1
+            if str(t.get("kind", "")).startswith("overflow:Sub"):
+                R.bad("CC4", "CC4/Hex::concat/length-subtraction-may-underflow", b.where((bi, b.term_idx(bi))),
+                      "concat() subtracts lengths with a checked subtraction: for empty or short operands the subtraction underflows and "
+                      "the call panics (debug build) instead of returning the concatenation")
+    R.ok("CC4", b.where(), "concat(): %d compiler-inserted checks examined, no subtraction on lengths" % n)
+
+
 def cc3(F, R):
     b = F.fn("Hex", "concat")
     if b is None:
